@@ -457,10 +457,14 @@ def combine(pid, a, b, every=3, **kw):
     """One check made of two engines: run index % every == every-1 goes to b."""
 
     def run_one(seed, run):
-        return (b if run % every == every - 1 else a).run_one(seed, run)
+        use_b = run % every == every - 1
+        d = (b if use_b else a).run_one(seed, run)
+        if "world" in d:
+            d["world"] = dict(d["world"], _engine="b" if use_b else "a")
+        return d
 
     def pick(doc):
-        return b if "program" in doc.get("world", {}) else a
+        return b if doc.get("world", {}).get("_engine") == "b" else a
 
     return runner.CheckSpec(
         pid=pid,
@@ -491,6 +495,15 @@ def _build2():
         assumptions=["the Hamiltonian used for energy observables is read from the emulator (its correctness is C05's business)", "BitStrings are judged by per-atom marginals at 6 sigma under the owned RNG"],
         expected_probes=["mixed_state_values", "three_level_values", "operator_construction_checked", "algebra_checked", "own_times_also_evaluated_at_default_times"],
     )
+    c11_hist = emu_spec(
+        "C11",
+        "exploration",
+        "EMU-SIM history part: the legacy emulator is driven through a seeded reconfiguration history (set_config with SPAM / doppler / amplitude / dissipative noise drawn with the owned RNG, add_config, reset_config, set_evaluation_times, set_initial_state, run); whenever it runs under a configuration without stochastic noise its states must equal those of a fresh emulator given that configuration directly (no state left behind by earlier noisy configurations)",
+        {"xy_p": 0.2, "n_max": 3, "bw_bias": 0.2, "hist_min": 4, "hist_max": 8, "emu_ops": {"set_config": 4, "add_config": 0.7, "reset_config": 0.7, "run": 4, "set_evaluation_times": 0.7, "set_initial_state": 0.4}},
+        lambda: emu.C11H(),
+        assumptions=["stochastic configurations are not compared (different draws)"],
+        expected_probes=["history_compared_under_noise"],
+    )
     _REG["C11"] = v2_spec(
         "C11",
         "exploration",
@@ -500,6 +513,7 @@ def _build2():
         assumptions=["solver tolerances: states compared at 1e-7 (legacy and V2 share the solver)", "analytic Rabi / zero-drive / bit-order scenarios are part of the thorough tier when built"],
         expected_probes=["legacy_v2_compared", "mixed_state_values", "three_level_values"],
     )
+    _REG["C11"] = combine("C11", _REG["C11"], c11_hist, every=3)
 
     _c18_reg()
     _REG["C05"] = emu_spec(
